@@ -27,12 +27,19 @@ Fixpoint jv_close (a b : jv Q) : bool :=
        | _, _ => false
        end) l m
   | JObj l, JObj m =>
-    (fix go (l m : list (string * jv Q)) : bool :=
-       match l, m with
-       | [], [] => true
-       | (k, x) :: l', (k', y) :: m' => andb (String.eqb k k') (andb (jv_close x y) (go l' m'))
-       | _, _ => false
-       end) l m
+    (* JSON objects are unordered: same number of members and every member of l has a close member of the same name in m
+       (the order in which json.dump writes the keys is not part of any property) *)
+    andb (Nat.eqb (length l) (length m))
+    ((fix go (l : list (string * jv Q)) : bool :=
+       match l with
+       | [] => true
+       | (k, x) :: l' =>
+         andb ((fix find (m : list (string * jv Q)) : bool :=
+                  match m with
+                  | [] => false
+                  | (k', y) :: m' => if String.eqb k k' then jv_close x y else find m'
+                  end) m) (go l')
+       end) l)
   | _, _ => false
   end.
 
